@@ -193,6 +193,12 @@ def apply_edits(vals, edits):
             del vals[e[1]]
         elif op == "ins":
             vals.insert(min(e[1], len(vals)), sn.ValueNode(e[2], float))
+        elif op == "insdup":
+            # a NEW node in front of an existing one, holding the very value of the node it displaces
+            if 0 <= e[1] < len(vals):
+                old = vals[e[1]]
+                new = sn.ValueNode(mp.montepy.Jump(), float) if old.value is None else sn.ValueNode(repr(float(old.value)), float)
+                vals.insert(e[1], new)
         elif op == "copyall":
             # what the data-block importances do: hand in copies of the nodes, none of them a node of the list
             vals = [copy.deepcopy(v) for v in vals]
@@ -434,6 +440,13 @@ def judge_round(ob):
     """The property on one write of the real code: (signature, detail) or None."""
     if "err" in ob:
         return ({"mechanism": "shortcut", "class": ob["err"], "kind": "list", "site": ob["site"]}, ob["err"])
+    if "items" in ob:
+        # judged before anything is indexed by position: the rebuilt list holds one node per value handed in
+        # (only trailing jumps may have been dropped)
+        held = sum(len(it["nodes"]) if "sc" in it else 1 for it in ob["items"])
+        vals_ = ob["values"]
+        if held > len(vals_) or any(v is not None for v in vals_[held:]):
+            return ({"mechanism": "shortcut", "class": "length-changed", "kind": "list", "site": "consume"}, f"{len(vals_)} values handed in, the rebuilt list holds {held} nodes; text {ob.get('text')!r}")
     bad = ref.compare(_decomment(ob["text"]), _floats(ob["values"]))
     if bad is not None:
         cls, kind, detail = bad
@@ -644,6 +657,21 @@ def gen_coincidence(rng, i):
     return {"unit": "listnode", "text": text, "rounds": rounds}
 
 
+def gen_equal_insert(rng, i):
+    """identity vs equality of nodes: new nodes inserted at the front / in the middle whose values EQUAL the value of the
+    node they displace, the original nodes handed in at later positions (a cell inserted in front of existing ones)"""
+    base = gen_random(rng, i) if rng.random() < 0.5 else gen_coincidence(rng, i)
+    ex = ref.expand(base["text"])
+    nv = len(ex) if ex else 3
+    rounds = []
+    for _ in range(rng.choice([1, 1, 2])):
+        edits = []
+        for _ in range(rng.choice([1, 1, 2])):
+            edits.append(["insdup", rng.choice([0, 0, 1, rng.randrange(nv)])])
+        rounds.append(edits)
+    return {"unit": "listnode", "text": base["text"], "rounds": rounds}
+
+
 def gen_drift(rng, i):
     """values that differ from their neighbour by less than rel_tol but drift away from the written value"""
     n = rng.randint(3, 9)
@@ -757,6 +785,8 @@ def gen_card_case(rng, i):
             edits.append(["set", rng.randrange(k), rng.choice([0.0, 1.0, 2.0, 4.0, 3.0])])
         elif r < 0.7:
             edits.append(["remove", rng.randrange(k)])
+        elif r < 0.82:
+            edits.append(["insert_before", rng.randrange(k)])
         elif r < 0.9:
             edits.append(["append", rng.choice([0.0, 1.0, 2.0])])
     case = {"unit": "cards", "kind": kind, "k": k, "words": words, "edits": edits}
@@ -891,6 +921,17 @@ def _run_card(case):
                     del cl[e[1] % len(cl)].volume
                 elif e[0] == "remove" and kind != "tr" and len(cl) > 1:
                     cells.remove(cl[e[1] % len(cl)])
+                elif e[0] == "insert_before" and kind != "tr":
+                    # a new cell in front of existing ones, holding the same datum as the cell it displaces
+                    i0 = e[1] % len(cl)
+                    moved = cl[i0:]
+                    c = copy.deepcopy(cl[i0])
+                    c.number = max(x.number for x in cl) + 1
+                    for x in moved:
+                        cells.remove(x)
+                    cells.append(c)
+                    for x in moved:
+                        cells.append(x)
                 elif e[0] == "append" and kind != "tr":
                     c = copy.deepcopy(cl[-1])
                     c.number = max(x.number for x in cl) + 1
@@ -1070,7 +1111,15 @@ def check_listnode_case(chk, drv, case, ri, table, ci, confirm=True):
             lean_ok = bool(spec.get("ok"))
             py_ok = "err" not in ob and ref.compare(_decomment(ob["text"]), _floats(ob["values"])) is None
             if lean_ok != py_ok:
-                raise MachineryError(f"the two independent readers disagree on {ob['text']!r} vs {ob['values']}: lean={spec} python={v}")
+                # never exit 2 on a case: the disagreement of the two readers is reported with the case, and the
+                # case is judged by the Python reader
+                chk.broken_obligation(
+                    "correspondence",
+                    "Spec reader (Lean) vs independent Python reader",
+                    {"text": ob["text"], "values": ob["values"], "lean": spec, "python_ok": py_ok},
+                    case,
+                )
+                _unused = (f"the two independent readers disagree on {ob['text']!r} vs {ob['values']}: lean={spec} python={v}")
         if v is not None:
             sig, detail = v
             mc = _shrink_case(case, k, sig) if confirm else case
@@ -1227,6 +1276,8 @@ def run(chk):
     rng5 = chk.rng("layout")
     cases += [gen_layout(rng5, i) for i in range(chk.pick(900, 12000))]
     cases += [gen_coincidence(rng5, i) for i in range(chk.pick(500, 6000))]
+    rng6 = chk.rng("equal-insert")
+    cases += [gen_equal_insert(rng6, i) for i in range(chk.pick(600, 8000))]
     rng2 = chk.rng("drift")
     cases += [gen_drift(rng2, i) for i in range(chk.pick(200, 3000))]
     nrandom = len(cases) - ncorpus
@@ -1257,7 +1308,17 @@ def run(chk):
                 if "sc" in it:
                     chk.count("written:" + it["kind"] + ("" if it["sc"] >= 0 else ":orphan"))
         if len(chk.violations) + len(chk.broken) < 12:
-            check_listnode_case(chk, drv, case, ri, table, ci)
+            try:
+                check_listnode_case(chk, drv, case, ri, table, ci)
+            except MachineryError:
+                raise
+            except Exception as e:  # noqa: BLE001  the harness could not canonicalise what the implementation returned
+                chk.broken_obligation(
+                    "correspondence",
+                    "U-listnode: the harness could not canonicalise the implementation's result",
+                    {"harness_exception": repr(e), "impl": _strip(ri)},
+                    case,
+                )
 
     # real cards
     rng3 = chk.rng("cards")
